@@ -122,7 +122,9 @@ def build(spec, scratch=None, stop_at=None, tolerate_flagged=False):
         except Exception as exc:
             raise BuildError(exc, i, 'hdr')
 
-    inline = (spec.get('write') or {}).get('source', 'inline') == 'inline'
+    wsrc = (spec.get('write') or {}).get('source', 'inline')
+    inline_all = wsrc == 'inline'
+    inline_ops = set(((spec.get('write') or {}).get('opts') or {}).get('inline_ops') or []) if wsrc == 'mixed' else set()
     for n_done, (i, j) in enumerate(call_order(spec)):
         if stop_at is not None and n_done >= stop_at:
             break
@@ -159,7 +161,7 @@ def build(spec, scratch=None, stop_at=None, tolerate_flagged=False):
                         oref = b.items[(i, oref['$origin'])].origin_reference
                 kwargs['origin_reference'] = oref
             if op['t'] == 'channel':
-                if op.get('data') is not None and inline:
+                if op.get('data') is not None and (inline_all or j in inline_ops):
                     arr = model.make_array(op['data'])
                     kwargs['data'] = arr
                     b.supplied[f"{i}:{op.get('dsname') or op['name']}"] = arr
@@ -226,9 +228,12 @@ def make_source(spec, b, scratch):
         return None
     opts = w.get('opts') or {}
     arrays = {}
+    mixed_inline = set(opts.get('inline_ops') or []) if src == 'mixed' else set()
     for i, lf in enumerate(spec['lfs']):
         names = dataset_names(spec, i)
         for j, op in enumerate(lf['ops']):
+            if j in mixed_inline:
+                continue        # this channel got its data at add_channel()
             if op['t'] == 'channel' and op.get('data') is not None and op.get('data_from') is None:
                 arrays[names[j]] = model.make_array(op['data'])
     keys = list(arrays)
@@ -238,7 +243,7 @@ def make_source(spec, b, scratch):
     elif perm == 'rot' and keys:
         keys = keys[1:] + keys[:1]
     extra = opts.get('extra') or []
-    if src == 'dict':
+    if src in ('dict', 'mixed'):
         d = {k: arrays[k] for k in keys}
         if opts.get('drop_last') and len(d) > 1:
             d.pop(sorted(d)[-1])
